@@ -4,3 +4,6 @@ package gohlslib
 
 // verifYield is a no-op unless the "verif" build tag is set.
 func verifYield(string) {}
+
+// verifPrefix never overrides the random URI prefix unless the "verif" build tag is set.
+func verifPrefix() (string, bool) { return "", false }
